@@ -175,7 +175,7 @@ def diff_snap(a, b):
     return None
 
 
-OPS = ("group", "points", "curve", "data", "rename", "move", "copy", "remove_ws", "remove_parent", "pg_add", "pg_remove", "reopen", "gc", "flag", "copy_edit", "remove_vertex", "move_data", "protect", "remove_protected", "deferred")
+OPS = ("group", "points", "curve", "data", "rename", "move", "copy", "remove_ws", "remove_parent", "pg_add", "pg_remove", "reopen", "gc", "flag", "copy_edit", "remove_vertex", "move_data", "protect", "remove_protected", "deferred", "pg_foreign")
 
 
 def run_ops(case):
@@ -318,6 +318,16 @@ def run_ops(case):
                 if o is not None:
                     datas = [c for c in o.children if hasattr(c, "values")]
                     o.add_data_to_group(datas[: 1 + b % 2], f"pg{b % 2}")
+            elif op == "pg_foreign":
+                # a property group asked to list data of *another* object: refused, or at least never written that way
+                withdata = [x for x in objs() if any(hasattr(c, "values") for c in x.children)]
+                o, o2 = pick(withdata, a), pick(withdata, a + 1 + b)
+                if o is not None and o2 is not None and o is not o2:
+                    foreign = [c for c in o2.children if hasattr(c, "values")][0].uid
+                    try:
+                        o.create_property_group(name=fresh("foreign"), properties=[foreign])
+                    except Exception:
+                        pass
             elif op == "pg_remove":
                 o = pick([x for x in objs() if x.property_groups], a)
                 if o is not None:
@@ -381,7 +391,7 @@ class ApiHistories(Contract):
     has_native = True
     native_shards = 4
     props = ("C01", "C02", "C05", "C09")
-    bounded_scope = "seeded operation sequences of length 6-14 over {create group/points/curve/data, create a points object without write-through (save_on_creation=False), rename, flag, move, copy, copy then edit the copy's values in place, remove a vertex, move a data set to another object, switch a delete permission off and ask for the removal (also after a re-open), remove through the workspace / through the parent, property-group add/remove, re-open, gc}: 40 sequences (quick) / 600 (thorough) + 13 fixed; WF(file) after every close, live tree == re-opened tree, removed entities stay gone, idle open/close leaves all node digests unchanged"
+    bounded_scope = "seeded operation sequences of length 6-14 over {create group/points/curve/data, create a points object without write-through (save_on_creation=False), rename, flag, move, copy, copy then edit the copy's values in place, remove a vertex, move a data set to another object, switch a delete permission off and ask for the removal (also after a re-open), remove through the workspace / through the parent, property-group add/remove, a property group asked to list another object's data, re-open, gc}: 40 sequences (quick) / 600 (thorough) + 14 fixed; WF(file) after every close, live tree == re-opened tree, removed entities stay gone, idle open/close leaves all node digests unchanged"
     fixed = [
         [("group", 0, 0), ("points", 0, 0), ("data", 0, 0), ("data", 0, 0), ("data", 0, 0), ("data", 0, 0), ("remove_ws", 0, 0), ("reopen", 0, 0)],
         [("points", 0, 0), ("data", 0, 0), ("data", 0, 0), ("pg_add", 0, 1), ("pg_add", 0, 0), ("remove_ws", 2, 0), ("reopen", 0, 0)],
@@ -395,6 +405,7 @@ class ApiHistories(Contract):
         [("points", 0, 0), ("points", 0, 0), ("data", 0, 0), ("data", 0, 0), ("pg_add", 0, 0), ("move_data", 0, 0), ("reopen", 0, 0), ("move_data", 1, 0), ("reopen", 0, 0)],
         [("points", 0, 0), ("data", 0, 0), ("copy_edit", 0, 0), ("reopen", 0, 0), ("copy_edit", 1, 0), ("reopen", 0, 0)],
         [("group", 0, 0), ("points", 0, 0), ("deferred", 0, 0), ("deferred", 1, 0), ("data", 1, 0), ("reopen", 0, 0), ("deferred", 0, 0), ("reopen", 0, 0)],
+        [("points", 0, 0), ("points", 0, 0), ("data", 0, 0), ("data", 1, 0), ("pg_foreign", 0, 0), ("reopen", 0, 0), ("pg_foreign", 1, 0), ("reopen", 0, 0)],
         [("group", 0, 0), ("curve", 0, 0), ("data", 0, 0), ("data", 0, 0), ("copy_edit", 0, 0), ("remove_vertex", 0, 2), ("reopen", 0, 0)],
     ]
 
